@@ -44,7 +44,8 @@ class PyFunc:
         if self._body is None:
             from .canon import canon_body
             from . import alpha
-            b_ = alpha.recover(self.module.name, self.qual, self.all_params, _expand_new_helpers(self))
+            from .canon import split_cond_assigns
+            b_ = alpha.recover(self.module.name, self.qual, self.all_params, split_cond_assigns(_expand_new_helpers(self)))
             self._body = canon_body(alpha.absorb_new_locals(self.module.name, self.qual, self.all_params, b_))
         return self._body
 
